@@ -218,8 +218,20 @@ def join(rep, prog, g):
             continue
         txt = "".join(v if k == "lit" else "{%s}" % v.name for k, v in fm.out)
         want = "||".join("{alt%d}" % i for i in range(n))
-        lo = gram.strip(g.get("range::logical_or")) if g.get("range::logical_or") else None
-        reads = lo is not None and lo.kind == "delimited" and gram.strip(lo.args[1]).kind == "lit" and gram.strip(lo.args[1]).extra == "||"
+        # the reader side: logical_or accepts exactly `||` (with optional blanks), decided on its automaton
+        if g.get("range::logical_or") is None:
+            rep.inconc("%s: logical_or was not extracted" % rule)
+            continue
+        try:
+            from .. import peg
+            from .c05 import build
+            L, Pg, classes, reps_, _, _ = build(prog, g, root="range::range_set", extra_chars="vV.-+xX*<>=~^|")
+            Mo, Fo = Pg.den(g["range::logical_or"])
+            bar = L.sym(classes[("lit", "|")])
+            reads = peg.inter(Mo, L.seq(bar, bar, L.mark())).witness() is not None
+        except (Inconclusive, KeyError) as e:
+            rep.inconc("%s: logical_or: %s" % (rule, e))
+            continue
         if txt == want and reads:
             rep.ok(rule)
         else:
@@ -259,7 +271,11 @@ def numeric_range(rep, prog, g):
         from .. import errors as E
         mx = prog.consts.get("MAX_SAFE_INTEGER")
         accepted_max = None
-        for r in E.number_table(prog):
+        rows_n = E.number_table(prog)
+        for r in rows_n:
+            if r["status"] == "inconclusive":
+                raise r["error"]          # the reader's limit is unknown: nothing to compare the literals with
+        for r in rows_n:
             if r["status"] == "ok" and r["parse"] == "ok":
                 d = E.decode_number(prog, r["interp"], r["result"])
                 if d[0] == "ok" and (accepted_max is None or r["value"] > accepted_max):
@@ -418,7 +434,15 @@ def serde_range(ctx, rep):
     de = [k for k in prog.bodies if k.endswith("::deserialize") and "Range" in k]
     se = [k for k in prog.bodies if k.endswith("::serialize") and "Range" in k]
     okd = bool(de) and all(flow.delegates_to_parse(prog, k, "<range::Range as std::str::FromStr>::from_str", "range::Range::parse") for k in de)
-    if okd:
+    for k in de:
+        if flow.deserializes_borrowed_str(prog, k):
+            okd = None
+            rep.fail("SERDE-RANGE", "Deserialize for Range|SERDE|borrowed str", "Deserialize takes the text as a borrowed `&str`: it fails "
+                     "whenever the deserializer cannot lend the string (readers, serde_json::Value, escaped text), so a serialized "
+                     "range does not always come back")
+    if okd is None:
+        pass
+    elif okd:
         rep.ok("SERDE-RANGE")
     else:
         rep.fail("SERDE-RANGE", "Deserialize for Range|SERDE|delegation", "Deserialize does not go through str::parse / Range::parse (found %s)" % de)
